@@ -241,6 +241,11 @@ func buildDoc(defs []def, use string, useForm, useKind int, usePos int, useCont 
 			return inContainer(s, "> - ", ">   ")
 		case 4: // quote inside a quote
 			return inContainer(s, "> > ", "> > ")
+		case 5: // very deep: 34 or 40 nested quotes, 18 nested list items
+			k := 34 + 6*(len(d.label)%2)
+			return inContainer(s, strings.Repeat("> ", k), strings.Repeat("> ", k))
+		case 6:
+			return inContainer(s, strings.Repeat("- ", 18), strings.Repeat("  ", 18))
 		}
 		return s
 	}
@@ -463,7 +468,7 @@ func genResolve(t *rapid.T) harness.Case {
 			b = append(b[:j:j], append([]int{rapid.IntRange(0, len(units)-1).Draw(t, "iu")}, b[j:]...)...)
 		}
 		c.SetS(fmt.Sprintf("label%d", i), drawLabel(t, b, true, fmt.Sprintf("d%d", i)))
-		c.SetI(fmt.Sprintf("cont%d", i), rapid.IntRange(0, 4).Draw(t, "cont"))
+		c.SetI(fmt.Sprintf("cont%d", i), []int{0, 0, 1, 1, 2, 2, 3, 3, 4, 4, 5, 6}[rapid.IntRange(0, 11).Draw(t, "cont")])
 		c.SetI(fmt.Sprintf("join%d", i), rapid.IntRange(0, 1).Draw(t, "join"))
 		c.SetI(fmt.Sprintf("title%d", i), rapid.IntRange(0, 1).Draw(t, "title"))
 		if rapid.IntRange(0, 5).Draw(t, "empty") == 0 {
@@ -629,6 +634,29 @@ func TestFoldTable(t *testing.T) {
 // characters and the way the label is used (shortcut, collapsed, full) do not
 // count. The definition and the use resolve iff the label has at most 999
 // characters.
+// genBusyLabel: a label (well inside the length limit) made of many words that
+// are delimiter runs, code spans or emphasis when read as link text: the
+// brackets of a shortcut, collapsed or image reference then have dozens of
+// entries of the delimiter stack between them. It is a label all the same.
+func genBusyLabel(t *rapid.T) harness.Case {
+	word := []string{"*a*", "_b_", "**c**", "x*", "*y", "`z`", "a_b", "***"}[rapid.IntRange(0, 7).Draw(t, "word")]
+	n := rapid.IntRange(5, 120).Draw(t, "words")
+	for n*(len(word)+1) > 990 {
+		n--
+	}
+	l := strings.TrimSpace(strings.Repeat(word+" ", n))
+	use := []string{"[" + l + "]", "[" + l + "][]", "[x][" + l + "]", "![" + l + "]", "![" + l + "][]"}[rapid.IntRange(0, 4).Draw(t, "use")]
+	doc := "w " + use + " w\n\n[" + l + "]: /u\n"
+	if rapid.Bool().Draw(t, "deffirst") {
+		doc = "[" + l + "]: /u\n\nw " + use + " w\n"
+	}
+	c := harness.Case{In: []byte(doc)}
+	c.SetI("chars", len(l))
+	c.SetI("container", 0)
+	c.SetS("unit", word)
+	return c
+}
+
 func genLongLabel(t *rapid.T) harness.Case {
 	n := rapid.IntRange(985, 1003).Draw(t, "labellen")
 	if rapid.IntRange(0, 2).Draw(t, "exact") > 0 {
@@ -699,6 +727,8 @@ func TestProperty(t *testing.T) {
 			Rule: "history of 1-4 definitions (labels = re-spellings / edits of a base label over an alphabet with multi-character folds, interior white space runs incl. line endings, edge white space of ASCII and Unicode kinds, escaped brackets; at top level, in a quote or in a list item; with/without title; destination and title on the same or on the following line, destination bare or in angle brackets; document line endings LF, CRLF or CR) and one use (shortcut, collapsed, full, or full with empty link text; link or image; between words, at the end of its line, as the content of an ATX heading, possibly as the last bytes of a document without final line ending) placed before, between or after them; oracle = the use resolves iff some definition's label has the same reference-normalised form, to the first such definition's destination and title; non-trivial = resolves with labels that differ as strings, a near miss (differs only by case / white-space spelling yet must not match, or vice versa), or >= 2 competing definitions"},
 		{Name: "long_labels", Quick: 6000, Thorough: 100000, Gen: genLongLabel, Prop: propLongLabel,
 			Rule: "a definition and a use (shortcut, collapsed, full, image) of a label of 985-1003 characters (two in three exactly 998-1001), made of one-, two-, three- or four-byte characters, written on 1-40 lines, at top level, in a quote (with and without the optional space), in a list item or in a list item in a quote; oracle = both resolve iff the label has at most 999 characters (code points), whatever its byte length and whatever the container prefixes add to the source between the brackets"},
+		{Name: "busy_labels", Quick: 4000, Thorough: 60000, Gen: genBusyLabel, Prop: propLongLabel,
+			Rule: "a definition and a use (shortcut, collapsed, full, image) of a label of 5-120 words that read as emphasis, code spans or lone delimiter runs when they are link text (up to 240 delimiter runs between the brackets); the label is well below the length limit, so both resolve"},
 		{Name: "closure", Quick: 100000, Thorough: 1000000, Gen: func(t *rapid.T) harness.Case {
 			if rapid.IntRange(0, 9).Draw(t, "g") < 7 {
 				return harness.Case{In: genRefSoup(t)}
